@@ -3,7 +3,9 @@ package c02
 import (
 	"encoding/json"
 	"fmt"
+	"github.com/go-kid/ioc"
 	"github.com/go-kid/ioc/app"
+	"github.com/go-kid/ioc/container/support"
 	"os"
 	"reflect"
 	"testing"
@@ -428,5 +430,65 @@ func TestStaticDeepCycles(t *testing.T) {
 			}
 		}
 		kit.Rec.Case(desc, n > 3, "deep-cycles")
+	}
+}
+
+// ---------------------------------------------------------------------------------------------------
+// Components announced process-wide (ioc.Register) and started with ioc.Run: they are components of every such run,
+// whatever options the run itself carries - also a registry of its own. Own process (VERIF_GLOBAL_SETTINGS=1).
+
+type GRegA struct {
+	B   *GRegB   `wire:""`
+	All []GRegIf `wire:""`
+}
+type GRegB struct {
+	C GRegIf `wire:"greg-c"`
+}
+type GRegC struct {
+	A *GRegA `wire:""`
+}
+type GRegIf interface{ isGReg() }
+
+func (*GRegA) isGReg()        {}
+func (*GRegB) isGReg()        {}
+func (*GRegC) isGReg()        {}
+func (*GRegC) Naming() string { return "greg-c" }
+
+type GRegLocal struct {
+	A *GRegA `wire:""`
+}
+
+func TestStaticRegisteredCycle(t *testing.T) {
+	if os.Getenv("VERIF_GLOBAL_SETTINGS") != "1" {
+		t.Skip("changes process-wide state: runs in a process of its own")
+	}
+	kit.Rec.Rule(rule)
+	a, b, c := &GRegA{}, &GRegB{}, &GRegC{}
+	ioc.Register(a, b, c)
+	for round, ownRegistry := range []bool{false, true, true, false} {
+		*a, *b, *c = GRegA{}, GRegB{}, GRegC{}
+		local := &GRegLocal{}
+		ops := []app.SettingOption{app.SetComponents(local)}
+		if ownRegistry {
+			ops = append([]app.SettingOption{app.SetRegistry(support.NewRegistry())}, ops...)
+		}
+		var ap *app.App
+		var err error
+		if p := kit.Protect(func() { ap, err = ioc.Run(ops...) }); p != nil {
+			t.Fatalf("C02: ioc.Run panicked: %v", p)
+		}
+		desc := fmt.Sprintf("cycle A -> B -> C -> A announced through ioc.Register, run %d through ioc.Run (registry of its own: %v) with one more component that wires A", round, ownRegistry)
+		if err != nil {
+			kit.DumpReplay("c02-registered-cycle", map[string]any{"scenario": desc, "error": err.Error()})
+			t.Fatalf("C02: %s: start-up failed: %v", desc, err)
+		}
+		if a.B != b || b.C != GRegIf(c) || c.A != a || local.A != a || len(a.All) != 2 {
+			kit.DumpReplay("c02-registered-cycle", map[string]any{"scenario": desc, "a": fmt.Sprintf("%+v", *a), "b": fmt.Sprintf("%+v", *b), "c": fmt.Sprintf("%+v", *c), "local": fmt.Sprintf("%+v", *local)})
+			t.Fatalf("C02: %s: the start succeeded but required points are not populated by their targets: A=%+v B=%+v C=%+v local=%+v", desc, *a, *b, *c, *local)
+		}
+		if got, err := ap.GetComponentByName("greg-c"); err != nil || got != any(c) {
+			t.Fatalf("C02: %s: lookup of greg-c gives %v, %v", desc, got, err)
+		}
+		kit.Rec.Case(desc, ownRegistry, "registered-cycle")
 	}
 }
